@@ -21,12 +21,17 @@ CLI = [sys.executable, '-c', 'import sys; from bronzebeard.asm import cli_main; 
 def cases(draw, rot=0):
     prog = draw(S.programs(PROFILE))
     lines = [it.render(ir.Style(0)) for it in prog.items]
+    labs = [it.name for it in prog.items if it.kind == 'label']
+    if labs and draw(st.integers(0, 2)) == 0:
+        # (round 10) one program in three gives its first label a long name (the -l file has one line per label, whatever its length)
+        pat = re.compile(r'(?<![\w.%%])%s(?!\w)' % re.escape(labs[0]))
+        lines = [pat.sub(labs[0] + '_receive_buffer_overflow_handler_entry', ln) for ln in lines]
+        labs[0] += '_receive_buffer_overflow_handler_entry'
     fault = None
     if draw(st.integers(0, 2)) == 0:
         faults = [f for f in c15.FAULTS if '{far}' not in f[1] and f[0] != 'duplabel']
         cls, text = draw(st.sampled_from(faults[rot % len(faults):] + faults[:rot % len(faults)]))
-        labels = [it.name for it in prog.items if it.kind == 'label']
-        text = text.replace('{label}', labels[0] if labels else 'nowhere_0')
+        text = text.replace('{label}', labs[0] if labs else 'nowhere_0')
         lines.insert(draw(st.integers(0, len(lines))), text)
         fault = (cls, text)
     defs = draw(st.integers(0, 4)) == 0
